@@ -130,9 +130,12 @@ theorem onSpine_insertC {cb0 cb : Nat} {pr : Nat → Nat} {q : Nat} {rtl : Bool}
 inductive Bot (st : PState) (E : Tree) : Nat → Prop
   | plain : st.lastLeft = some (st.nodes.size - 1) →
       (∃ nd, st.nodes[st.nodes.size - 1]? = some nd ∧ nd.right = none ∧ nd.definition.isGroupLike = false) →
+      E.inorder.getLast? = some (st.nodes.size - 1) →
+      (∀ nd, st.nodes[st.nodes.size - 1]? = some nd → (nd.secondaryDefinition == SecDef.subexpression) = false) →
       Bot st E st.nodes.size
   | closed (cb : Nat) (G : ParseNode) : cb < st.nodes.size → st.lastLeft = some cb → st.nodes[cb]? = some G →
-      isBracketDef G.definition = true → OnSpine cb E → Bot st E cb
+      isBracketDef G.definition = true → OnSpine cb E →
+      (G.secondaryDefinition == SecDef.subexpression) = false → Bot st E cb
 
 /-- **frame-local invariant** after an operand or a suffix operator (closed under trivia tokens) -/
 structure UInv (st : PState) (ug p : Option Nat) (base : Nat) (E : Tree) (re cb : Nat) : Prop where
@@ -144,13 +147,18 @@ structure UInv (st : PState) (ug p : Option Nat) (base : Nat) (E : Tree) (re cb 
   prev : st.previousSecondDef = .value ∨ st.previousSecondDef = .identifier ∨ st.previousSecondDef = .unarySuffix ∨
     st.previousSecondDef = .endGrouping ∨ st.previousSecondDef = .whitespace ∨ st.previousSecondDef = .annotation
 
+theorem getLast?_append_cons' {α : Type} (l1 l2 : List α) (n : α) : (l1 ++ n :: l2).getLast? = (n :: l2).getLast? := by
+  rw [List.getLast?_append]
+  rw [List.getLast?_eq_some_getLast (List.cons_ne_nil n l2)]
+  rfl
+
 theorem Bot.noop_data {st : PState} {E : Tree} {cb : Nat} (h : Bot st E cb) :
     ∃ i nd, st.lastLeft = some i ∧ st.nodes[i]? = some nd ∧ (nd.definition == Definition.sideEffect) = false := by
   cases h with
-  | plain hl hb =>
+  | plain hl hb _ _ =>
     obtain ⟨nd, h1, _, h3⟩ := hb
     exact ⟨_, nd, hl, h1, not_sideEffect_of_not_groupLike h3⟩
-  | closed cb G _ hl hG hbr _ => exact ⟨_, G, hl, hG, (bracket_facts hbr).2.2.1⟩
+  | closed cb G _ hl hG hbr _ _ => exact ⟨_, G, hl, hG, (bracket_facts hbr).2.2.1⟩
 
 theorem UInv.adjust {st : PState} {ug p : Option Nat} {base : Nat} {E : Tree} {re cb : Nat}
     (h : UInv st ug p base E re cb) : adjustLastLeft st ug = .ok st := by
@@ -159,7 +167,7 @@ theorem UInv.adjust {st : PState} {ug p : Option Nat} {base : Nat} {E : Tree} {r
 
 theorem UInv.cb_not_mem {st : PState} {ug p : Option Nat} {base : Nat} {E : Tree} {re cb : Nat}
     (h : UInv st ug p base E re cb) : st.nodes.size ∉ E.inorder := fun hm => by
-  have := ((h.n.mem _).mp hm).2; omega
+  have := (h.n.mem _ hm).2; omega
 
 theorem UInv.comp_binop {st : PState} {ug p : Option Nat} {base : Nat} {E : Tree} {re cb : Nat}
     (h : UInv st ug p base E re cb) (so : SecDef)
@@ -183,25 +191,30 @@ theorem core_effectU {st : PState} {ug p : Option Nat} {base : Nat} {E : Tree} {
       (∀ j, j < st.nodes.size → (nodes'[j]?).map (·.definition) = (st.nodes[j]?).map (·.definition)) ∧
       (∀ j, j < base → (nodes'[j]?).map (setRight none) = (st.nodes[j]?).map (setRight none)) ∧
       (∀ j, j + 1 < base → nodes'[j]? = st.nodes[j]?) ∧
-      (∀ (arr : Array ParseNode) (sub : Tree) (ko : Nat), (∀ j, j < st.nodes.size → arr[j]? = nodes'[j]?) →
-        (∃ on, arr[st.nodes.size]? = some on ∧ on.parent = info.parent ∧ on.left = info.left ∧ on.right = right ∧
+      (∀ (arr : Array ParseNode) (sub : Tree) (ko : Nat) {rlink : Option Nat},
+        (∀ j, j < st.nodes.size → arr[j]? = nodes'[j]?) →
+        (∃ on, arr[st.nodes.size]? = some on ∧ on.parent = info.parent ∧ on.left = info.left ∧ on.right = rlink ∧
           tokPos on = ko) →
-        IsTreeAt arr (some st.nodes.size) right sub →
-        ∃ re', FrameTree arr p re' (insertC cb (prioAt st.nodes) q rtl st.nodes.size ko sub E)) := by
+        IsTreeAt arr (some st.nodes.size) rlink sub →
+        ∃ re', FrameTree arr p re' (insertC cb (prioAt st.nodes) q rtl st.nodes.size ko sub E)) ∧
+      ((cb = st.nodes.size → stops q rtl (prioAt st.nodes (st.nodes.size - 1)) = false) → (∀ g, p = some g → info.parent.isSome = true) ∧ ∀ P, info.parent = some P →
+        ∃ l, info.left = some l ∧ l < st.nodes.size ∧ P < st.nodes.size ∧ l ≠ P ∧
+          ∀ j, (if j = P then (nodes'[j]?).map (setRight (some l))
+                else if j = l then (nodes'[j]?).map (setParent (some P)) else nodes'[j]?) = st.nodes[j]?) := by
   have hnm := hinv.cb_not_mem
   cases hb : hinv.bot with
-  | plain hl _ =>
-    obtain ⟨nodes', info, h1, h2, h3, h4, h5, h6⟩ := core_effectB hinv.n d q rtl right hq
-    refine ⟨nodes', info, by rw [hl]; exact h1, h2, h3, h4, h5, ?_⟩
-    intro arr sub ko ha hon hsub
+  | plain hl _ hlastE _ =>
+    obtain ⟨nodes', info, h1, h2, h3, h4, h5, h6, h7⟩ := core_effectB hinv.n hlastE d q rtl right hq
+    refine ⟨nodes', info, by rw [hl]; exact h1, h2, h3, h4, h5, ?_, fun hs => h7 (hs rfl)⟩
+    intro arr sub ko rlink ha hon hsub
     obtain ⟨re', hre'⟩ := h6 arr sub ko ha hon hsub
     exact ⟨re', by rw [insertC_eq_insertS _ _ _ _ _ _ _ _ hnm]; exact hre'⟩
-  | closed cb G _ hl hG hbr hsp =>
+  | closed cb G _ hl hG hbr hsp _ =>
     have hns : stops q rtl (prioAt st.nodes cb) = false := by
       have : prioAt st.nodes cb = 20 := by simp [prioAt, hG, (bracket_facts hbr).1]
       rw [this]; exact stops_twenty rtl hq20
-    obtain ⟨nodes', info, h1, h2, h3, h4, h5, h6⟩ := core_effectC hinv.n cb hsp d q rtl right hq hns
-    exact ⟨nodes', info, by rw [hl]; exact h1, h2, h3, h4, h5, h6⟩
+    obtain ⟨nodes', info, h1, h2, h3, h4, h5, h6, h7⟩ := core_effectC hinv.n cb hsp d q rtl right hq hns
+    exact ⟨nodes', info, by rw [hl]; exact h1, h2, h3, h4, h5, h6, fun _ => h7⟩
 
 /-- **a binary-operator token** on a state that satisfies `UInv` -/
 theorem op_effectU {st : PState} {ug p : Option Nat} {base : Nat} {E : Tree} {re cb : Nat} {o : PToken}
@@ -214,10 +227,11 @@ theorem op_effectU {st : PState} {ug p : Option Nat} {base : Nat} {E : Tree} {re
       (∀ j, j < st.nodes.size → (nodes'[j]?).map (·.definition) = (st.nodes[j]?).map (·.definition)) ∧
       (∀ j, j < base → (nodes'[j]?).map (setRight none) = (st.nodes[j]?).map (setRight none)) ∧
       (∀ j, j + 1 < base → nodes'[j]? = st.nodes[j]?) ∧
-      (∀ (arr : Array ParseNode) (sub : Tree) (ko : Nat), (∀ j, j < st.nodes.size → arr[j]? = nodes'[j]?) →
+      (∀ (arr : Array ParseNode) (sub : Tree) (ko : Nat) {rlink : Option Nat},
+        (∀ j, j < st.nodes.size → arr[j]? = nodes'[j]?) →
         (∃ on, arr[st.nodes.size]? = some on ∧ on.parent = info.parent ∧ on.left = info.left ∧
-          on.right = some (st.nodes.size + 1) ∧ tokPos on = ko) →
-        IsTreeAt arr (some st.nodes.size) (some (st.nodes.size + 1)) sub →
+          on.right = rlink ∧ tokPos on = ko) →
+        IsTreeAt arr (some st.nodes.size) rlink sub →
         ∃ re', FrameTree arr p re'
           (insertC cb (prioAt st.nodes) q ((getDefinition o.type).2 == .binaryRightToLeft) st.nodes.size ko sub E)) := by
   have ho' := ho
@@ -225,7 +239,7 @@ theorem op_effectU {st : PState} {ug p : Option Nat} {base : Nat} {E : Tree} {re
   obtain ⟨q, hq, hq20, _⟩ := bin3_prio20 o.type ho'
   obtain ⟨f1, f2, f3, f4⟩ := bin3_def_facts o.type ho'
   have hso := bin3_secdef ho
-  obtain ⟨nodes', info, hpt, hir, hdefs, hout1, hout2, htreeK⟩ := core_effectU hinv (getDefinition o.type).1 q
+  obtain ⟨nodes', info, hpt, hir, hdefs, hout1, hout2, htreeK, _⟩ := core_effectU hinv (getDefinition o.type).1 q
     ((getDefinition o.type).2 == .binaryRightToLeft) (some (st.nodes.size + 1)) hq hq20
   obtain ⟨st1, h1⟩ := step_bin3_okG st o ho hinv.hug hinv.adjust (hinv.comp_binop _ hso) ⟨nodes', info, hpt⟩
   obtain ⟨nodes1, info1, hpt1, hn1, hl1, hc1, hnl1, hgs1, hcg1, hp1⟩ :=
@@ -263,7 +277,7 @@ theorem suffix_effectU {st : PState} {ug p : Option Nat} {base : Nat} {E : Tree}
   have hsd : (getDefinition s.type).2 = .unarySuffix := by unfold isSuffixTok at hs; simpa using hs
   obtain ⟨q, hq, hq20, hnb⟩ := suffix_prio20 s.type hsd
   obtain ⟨_, _, _, _, _, _, f3, f4⟩ := suffix_def_facts s.type hsd
-  obtain ⟨nodes', info, hpt, hir, hdefs, hout1, hout2, htreeK⟩ :=
+  obtain ⟨nodes', info, hpt, hir, hdefs, hout1, hout2, htreeK, _⟩ :=
     core_effectU hinv (getDefinition s.type).1 q false none hq hq20
   obtain ⟨st1, h1⟩ := step_suffix_okG st s il hs hinv.hug hinv.adjust hinv.comp_suffix ⟨nodes', info, hpt⟩
   obtain ⟨nodes1, info1, hpt1, hn1, hl1, hc1, hnl1, hgs1, hcg1, hp1⟩ :=
@@ -308,20 +322,24 @@ theorem suffix_effectU {st : PState} {ug p : Option Nat} {base : Nat} {E : Tree}
     | bracket g re G pg hG hgl hpg hGr =>
       obtain ⟨G', hG', hGr', hgl', pg', hpg'⟩ := hfr' g rfl
       exact .bracket g re' G' pg' hG' hgl' hpg' hGr'
-  refine ⟨⟨htree', ?_, by omega, hframe1, hprios1⟩, hnl1, hug1, ?_, ?_, Or.inr (Or.inr (Or.inl hp1))⟩
-  · rw [insertC_inorder, hinv.n.inord, hs1]
-    have e : st.nodes.size + 1 - base = (st.nodes.size - base) + 1 := by omega
-    rw [e, List.range'_concat]
-    simp [Tree.inorder]
-    omega
-  · exact .plain (by rw [hl1, hs1]; rfl) ⟨_, by rw [hs1, Nat.add_sub_cancel]; exact hon, rfl, f4⟩
+  have hin1 : (insertC cb (prioAt st.nodes) q false st.nodes.size s.col .nil E).inorder = E.inorder ++ [st.nodes.size] := by
+    rw [insertC_inorder]; rfl
+  refine ⟨⟨htree', ?_, ?_, by omega, hframe1, hprios1⟩, hnl1, hug1, ?_, ?_, Or.inr (Or.inr (Or.inl hp1))⟩
+  · rw [hin1, hs1]
+    exact hinv.n.inord.append_cons (l2 := []) ⟨List.Pairwise.nil, fun j hj => by cases hj⟩ (by omega) (by omega)
+  · rw [hin1]; exact List.mem_append_left _ hinv.n.first
+  · refine .plain (by rw [hl1, hs1]; rfl) ⟨_, by rw [hs1, Nat.add_sub_cancel]; exact hon, rfl, f4⟩ ?_ ?_
+    · rw [hin1, hs1, Nat.add_sub_cancel]; simp
+    · intro nd hnd
+      rw [hs1, Nat.add_sub_cancel, hon] at hnd
+      injection hnd with hnd; rw [← hnd]; rfl
   · have hcong : ∀ i ∈ E.inorder, dfOf st.nodes i = dfOf st1.nodes i := by
       intro i hi
-      have := hdefs1 i ((hinv.n.mem i).mp hi).2
+      have := hdefs1 i (hinv.n.mem i hi).2
       simp only [dfOf, this]
     apply spineG_insertC (by omega) (by rw [hdn]; exact hnb)
       (show SpineG (dfOf st1.nodes) st1.nodes.size Tree.nil from trivial)
-    · intro hm; have := ((hinv.n.mem _).mp hm).2; omega
+    · intro hm; have := (hinv.n.mem _ hm).2; omega
     · exact hinv.spine.congr hcong
 
 end Garnish.Spec
